@@ -100,24 +100,24 @@ func (mo *MethodOption) adjoin(b []byte) []byte {
 	b = append(b, "(:method"...)
 	if mo.qual != nil {
 		if mo.qual.newline() {
-			b = append(b, indent[:mo.qual.left()+1]...)
+			b = newlineIndent(b, mo.qual.left())
 		} else {
 			b = append(b, ' ')
 		}
 		b = mo.qual.adjoin(b)
 	}
 	if mo.sll.newline() {
-		b = append(b, indent[:mo.sll.left()+1]...)
+		b = newlineIndent(b, mo.sll.left())
 	} else {
 		b = append(b, ' ')
 	}
 	b = mo.sll.adjoin(b)
 	if mo.doc != nil {
-		b = append(b, indent[:mo.doc.left()+1]...)
+		b = newlineIndent(b, mo.doc.left())
 		b = mo.doc.adjoin(b)
 	}
 	for _, n := range mo.children {
-		b = append(b, indent[:n.left()+1]...)
+		b = newlineIndent(b, n.left())
 		b = n.adjoin(b)
 	}
 	return append(b, ')')
